@@ -52,9 +52,13 @@ package gogu
 
 //@ func gogu.Contains
 //@   property C13 C11 C16
+//@   ghost w int = 0
 //@   ensures result <==> exists j int :: 0 <= j && j < len(slice) && slice[j] == value
+//@   ensures result ==> 0 <= w && w < len(slice) && slice[w] == value
 //@ loop 1
 //@   invariant forall j int :: 0 <= j && j < $i ==> slice[j] != value
+//@   invariant w == $i
+//@   ghost w = $i + 1
 
 //@ func gogu.Some
 //@   property C13 C16
@@ -570,3 +574,290 @@ package gogu
 //@   ensures forall k T2, j int :: k in result && 0 <= j && j < len(result[k]) ==> 0 <= gpos[k][j] && gpos[k][j] < len(slice) && call(fn, slice[gpos[k][j]]) == k && result[k][j] == slice[gpos[k][j]]
 //@   ensures forall k T2, j int :: k in result && 1 <= j && j < len(result[k]) ==> gpos[k][j-1] < gpos[k][j]
 //@   ensures forall x int :: 0 <= x && x < len(slice) ==> call(fn, slice[x]) in result && 0 <= gback[x] && gback[x] < len(result[call(fn, slice[x])]) && gpos[call(fn, slice[x])][gback[x]] == x
+
+// ---------------------------------------------------------------- C11: set-algebra helpers
+
+//@ func gogu.Unique
+//@   property C11 C16
+//@   ghost pos map[int]int
+//@   ghost back map[int]int
+//@   ghost wit map[T]int
+//@   ensures fresh(result)
+//@   ensures forall k int :: 0 <= k && k < len(result) ==> 0 <= pos[k] && pos[k] < len(slice) && result[k] == slice[pos[k]]
+//@   ensures forall k int, j int :: 0 <= k && k < len(result) && 0 <= j && j < pos[k] ==> slice[j] != slice[pos[k]]
+//@   ensures forall j int :: 0 <= j && j < len(slice) ==> 0 <= back[j] && back[j] < len(result) && result[back[j]] == slice[j]
+//@   ensures forall a int, b int :: 0 <= a && a < b && b < len(result) ==> pos[a] < pos[b]
+//@   ensures forall a int, b int :: 0 <= a && a < b && b < len(result) ==> result[a] != result[b]
+//@ loop 1
+//@   invariant fresh(result) && 0 <= $i && $i <= len(slice) && fresh(keys) && keys != nil
+//@   invariant forall k int :: 0 <= k && k < len(result) ==> 0 <= pos[k] && pos[k] < $i && result[k] == slice[pos[k]]
+//@   invariant forall k int, j int :: 0 <= k && k < len(result) && 0 <= j && j < pos[k] ==> slice[j] != slice[pos[k]]
+//@   invariant forall a int, b int :: 0 <= a && a < b && b < len(result) ==> pos[a] < pos[b]
+//@   invariant forall j int :: 0 <= j && j < $i ==> 0 <= back[j] && back[j] < len(result) && result[back[j]] == slice[j]
+//@   invariant forall j int :: 0 <= j && j < $i ==> slice[j] in keys
+//@   invariant forall x T :: x in keys ==> 0 <= wit[x] && wit[x] < $i && slice[wit[x]] == x
+//@   ghost pos[len(result)-1] = $i when !ok
+//@   ghost back[$i] = ok ? back[wit[v]] : len(result)-1
+//@   ghost wit[v] = $i when !ok
+
+//@ func gogu.UniqueBy
+//@   property C11 C16
+//@   requires fn != nil
+//@   ghost pos map[int]int
+//@   ghost back map[int]int
+//@   ghost wit map[T]int
+//@   ensures fresh(result)
+//@   ensures forall k int :: 0 <= k && k < len(result) ==> 0 <= pos[k] && pos[k] < len(slice) && result[k] == slice[pos[k]]
+//@   ensures forall k int, j int :: 0 <= k && k < len(result) && 0 <= j && j < pos[k] ==> call(fn, slice[j]) != call(fn, slice[pos[k]])
+//@   ensures forall j int :: 0 <= j && j < len(slice) ==> 0 <= back[j] && back[j] < len(result) && call(fn, result[back[j]]) == call(fn, slice[j])
+//@   ensures forall a int, b int :: 0 <= a && a < b && b < len(result) ==> pos[a] < pos[b]
+//@   ensures forall a int, b int :: 0 <= a && a < b && b < len(result) ==> call(fn, result[a]) != call(fn, result[b])
+//@ loop 1
+//@   invariant fresh(result) && 0 <= $i && $i <= len(slice) && fresh(keys) && keys != nil
+//@   invariant forall k int :: 0 <= k && k < len(result) ==> 0 <= pos[k] && pos[k] < $i && result[k] == slice[pos[k]]
+//@   invariant forall k int, j int :: 0 <= k && k < len(result) && 0 <= j && j < pos[k] ==> call(fn, slice[j]) != call(fn, slice[pos[k]])
+//@   invariant forall a int, b int :: 0 <= a && a < b && b < len(result) ==> pos[a] < pos[b]
+//@   invariant forall j int :: 0 <= j && j < $i ==> 0 <= back[j] && back[j] < len(result) && call(fn, result[back[j]]) == call(fn, slice[j])
+//@   invariant forall j int :: 0 <= j && j < $i ==> call(fn, slice[j]) in keys
+//@   invariant forall x T :: x in keys ==> 0 <= wit[x] && wit[x] < $i && call(fn, slice[wit[x]]) == x
+//@   ghost pos[len(result)-1] = $i when !ok
+//@   ghost back[$i] = ok ? back[wit[call(fn, v)]] : len(result)-1
+//@   ghost wit[call(fn, v)] = $i when !ok
+
+//@ func gogu.Without
+//@   property C11 C16
+//@   ghost pos map[int]int
+//@   ghost back map[int]int
+//@   ghost wit map[T1]int
+//@   ghost ex map[int]int
+//@   ensures fresh(result)
+//@   ensures forall k int :: 0 <= k && k < len(result) ==> 0 <= pos[k] && pos[k] < len(slice) && result[k] == slice[pos[k]]
+//@   ensures forall k int, m int :: 0 <= k && k < len(result) && 0 <= m && m < len(values) ==> values[m] != result[k]
+//@   ensures forall k int, j int :: 0 <= k && k < len(result) && 0 <= j && j < pos[k] ==> slice[j] != slice[pos[k]]
+//@   ensures forall j int :: 0 <= j && j < len(slice) ==> (0 <= ex[j] && ex[j] < len(values) && values[ex[j]] == slice[j]) || (0 <= back[j] && back[j] < len(result) && result[back[j]] == slice[j])
+//@   ensures forall a int, b int :: 0 <= a && a < b && b < len(result) ==> pos[a] < pos[b]
+//@   ensures forall a int, b int :: 0 <= a && a < b && b < len(result) ==> result[a] != result[b]
+//@ loop 1
+//@   invariant fresh(uni) && 0 <= $i && $i <= len(slice) && fresh(keys) && keys != nil
+//@   invariant forall k int :: 0 <= k && k < len(uni) ==> 0 <= pos[k] && pos[k] < $i && uni[k] == slice[pos[k]]
+//@   invariant forall k int, m int :: 0 <= k && k < len(uni) && 0 <= m && m < len(values) ==> values[m] != uni[k]
+//@   invariant forall k int, j int :: 0 <= k && k < len(uni) && 0 <= j && j < pos[k] ==> slice[j] != slice[pos[k]]
+//@   invariant forall a int, b int :: 0 <= a && a < b && b < len(uni) ==> pos[a] < pos[b]
+//@   invariant forall j int :: 0 <= j && j < $i ==> (0 <= ex[j] && ex[j] < len(values) && values[ex[j]] == slice[j]) || (0 <= back[j] && back[j] < len(uni) && uni[back[j]] == slice[j])
+//@   invariant forall j int :: 0 <= j && j < $i ==> (0 <= ex[j] && ex[j] < len(values) && values[ex[j]] == slice[j]) || slice[j] in keys
+//@   invariant forall x T1 :: x in keys ==> 0 <= wit[x] && wit[x] < $i && slice[wit[x]] == x && (forall m int :: 0 <= m && m < len(values) ==> values[m] != x)
+//@   ghost pos[len(uni)-1] = $i1 when !ok
+//@   ghost back[$i1] = back[wit[v]] when ok
+//@   ghost back[$i1] = len(uni)-1 when !ok
+//@   ghost wit[v] = $i1 when !ok
+//@   ghost ex[$i1] = $i2 when v == val
+//@ loop 2
+//@   invariant 0 <= $i && $i <= len(values)
+//@   invariant forall m int :: 0 <= m && m < $i ==> values[m] != v
+
+//@ func gogu.Difference
+//@   property C11 C16
+//@   ghost pos map[int]int
+//@   ghost back map[int]int
+//@   ghost wit map[T]int
+//@   ghost ex map[int]int
+//@   ensures fresh(result)
+//@   ensures forall k int :: 0 <= k && k < len(result) ==> 0 <= pos[k] && pos[k] < len(s1) && result[k] == s1[pos[k]]
+//@   ensures forall k int, m int :: 0 <= k && k < len(result) && 0 <= m && m < len(s2) ==> s2[m] != result[k]
+//@   ensures forall k int, j int :: 0 <= k && k < len(result) && 0 <= j && j < pos[k] ==> s1[j] != s1[pos[k]]
+//@   ensures forall j int :: 0 <= j && j < len(s1) ==> (0 <= ex[j] && ex[j] < len(s2) && s2[ex[j]] == s1[j]) || (0 <= back[j] && back[j] < len(result) && result[back[j]] == s1[j])
+//@   ensures forall a int, b int :: 0 <= a && a < b && b < len(result) ==> pos[a] < pos[b]
+//@   ensures forall a int, b int :: 0 <= a && a < b && b < len(result) ==> result[a] != result[b]
+//@ loop 1
+//@   invariant fresh(unique) && 0 <= $i && $i <= len(s1) && fresh(keys) && keys != nil
+//@   invariant forall k int :: 0 <= k && k < len(unique) ==> 0 <= pos[k] && pos[k] < $i && unique[k] == s1[pos[k]]
+//@   invariant forall k int, m int :: 0 <= k && k < len(unique) && 0 <= m && m < len(s2) ==> s2[m] != unique[k]
+//@   invariant forall k int, j int :: 0 <= k && k < len(unique) && 0 <= j && j < pos[k] ==> s1[j] != s1[pos[k]]
+//@   invariant forall a int, b int :: 0 <= a && a < b && b < len(unique) ==> pos[a] < pos[b]
+//@   invariant forall j int :: 0 <= j && j < $i ==> (0 <= ex[j] && ex[j] < len(s2) && s2[ex[j]] == s1[j]) || (0 <= back[j] && back[j] < len(unique) && unique[back[j]] == s1[j])
+//@   invariant forall j int :: 0 <= j && j < $i ==> (0 <= ex[j] && ex[j] < len(s2) && s2[ex[j]] == s1[j]) || s1[j] in keys
+//@   invariant forall x T :: x in keys ==> 0 <= wit[x] && wit[x] < $i && s1[wit[x]] == x && (forall m int :: 0 <= m && m < len(s2) ==> s2[m] != x)
+//@   ghost pos[len(unique)-1] = $i1 when !ok
+//@   ghost back[$i1] = back[wit[v]] when ok
+//@   ghost back[$i1] = len(unique)-1 when !ok
+//@   ghost wit[v] = $i1 when !ok
+//@   ghost ex[$i1] = $i2 when v == val
+//@ loop 2
+//@   invariant 0 <= $i && $i <= len(s2)
+//@   invariant forall m int :: 0 <= m && m < $i ==> s2[m] != v
+
+//@ func gogu.DifferenceBy
+//@   property C11 C16
+//@   requires fn != nil
+//@   ghost pos map[int]int
+//@   ghost back map[int]int
+//@   ghost wit map[T]int
+//@   ghost ex map[int]int
+//@   ensures fresh(result)
+//@   ensures forall k int :: 0 <= k && k < len(result) ==> 0 <= pos[k] && pos[k] < len(s1) && result[k] == s1[pos[k]]
+//@   ensures forall k int, m int :: 0 <= k && k < len(result) && 0 <= m && m < len(s2) ==> call(fn, s2[m]) != call(fn, result[k])
+//@   ensures forall k int, j int :: 0 <= k && k < len(result) && 0 <= j && j < pos[k] ==> s1[j] != s1[pos[k]]
+//@   ensures forall j int :: 0 <= j && j < len(s1) ==> (0 <= ex[j] && ex[j] < len(s2) && call(fn, s2[ex[j]]) == call(fn, s1[j])) || (0 <= back[j] && back[j] < len(result) && result[back[j]] == s1[j])
+//@   ensures forall a int, b int :: 0 <= a && a < b && b < len(result) ==> pos[a] < pos[b]
+//@   ensures forall a int, b int :: 0 <= a && a < b && b < len(result) ==> result[a] != result[b]
+//@ loop 1
+//@   invariant fresh(unique) && 0 <= $i && $i <= len(s1) && fresh(keys) && keys != nil
+//@   invariant forall k int :: 0 <= k && k < len(unique) ==> 0 <= pos[k] && pos[k] < $i && unique[k] == s1[pos[k]]
+//@   invariant forall k int, m int :: 0 <= k && k < len(unique) && 0 <= m && m < len(s2) ==> call(fn, s2[m]) != call(fn, unique[k])
+//@   invariant forall k int, j int :: 0 <= k && k < len(unique) && 0 <= j && j < pos[k] ==> s1[j] != s1[pos[k]]
+//@   invariant forall a int, b int :: 0 <= a && a < b && b < len(unique) ==> pos[a] < pos[b]
+//@   invariant forall j int :: 0 <= j && j < $i ==> (0 <= ex[j] && ex[j] < len(s2) && call(fn, s2[ex[j]]) == call(fn, s1[j])) || (0 <= back[j] && back[j] < len(unique) && unique[back[j]] == s1[j])
+//@   invariant forall j int :: 0 <= j && j < $i ==> (0 <= ex[j] && ex[j] < len(s2) && call(fn, s2[ex[j]]) == call(fn, s1[j])) || s1[j] in keys
+//@   invariant forall x T :: x in keys ==> 0 <= wit[x] && wit[x] < $i && s1[wit[x]] == x && (forall m int :: 0 <= m && m < len(s2) ==> call(fn, s2[m]) != call(fn, x))
+//@   ghost pos[len(unique)-1] = $i1 when !ok
+//@   ghost back[$i1] = back[wit[v]] when ok
+//@   ghost back[$i1] = len(unique)-1 when !ok
+//@   ghost wit[v] = $i1 when !ok
+//@   ghost ex[$i1] = $i2 when call(fn, v) == call(fn, val)
+//@ loop 2
+//@   invariant 0 <= $i && $i <= len(s2)
+//@   invariant forall m int :: 0 <= m && m < $i ==> call(fn, s2[m]) != call(fn, v)
+
+//@ func gogu.Intersection
+//@   property C11 C16
+//@   requires len(params) >= 1
+//@   ghost pos map[int]int
+//@   ghost back map[int]int
+//@   ghost miss map[int]int
+//@   ghost w int
+//@   ensures fresh(result)
+//@   ensures forall k int :: 0 <= k && k < len(result) ==> 0 <= pos[k] && pos[k] < len(params[0]) && result[k] == params[0][pos[k]]
+//@   ensures forall k int, p int :: 0 <= k && k < len(result) && 1 <= p && p < len(params) ==> exists m int :: 0 <= m && m < len(params[p]) && params[p][m] == result[k]
+//@   ensures forall k int, j int :: 0 <= k && k < len(result) && 0 <= j && j < pos[k] ==> params[0][j] != params[0][pos[k]]
+//@   ensures forall j int :: 0 <= j && j < len(params[0]) ==> (0 <= back[j] && back[j] < len(result) && result[back[j]] == params[0][j]) || (1 <= miss[j] && miss[j] < len(params) && forall m int :: 0 <= m && m < len(params[miss[j]]) ==> params[miss[j]][m] != params[0][j])
+//@   ensures forall a int, b int :: 0 <= a && a < b && b < len(result) ==> pos[a] < pos[b]
+//@   ensures forall a int, b int :: 0 <= a && a < b && b < len(result) ==> result[a] != result[b]
+//@ loop 1
+//@   invariant fresh(result) && 0 <= i && i <= len(params[0])
+//@   invariant forall k int :: 0 <= k && k < len(result) ==> 0 <= pos[k] && pos[k] < i && result[k] == params[0][pos[k]]
+//@   invariant forall k int, p int :: 0 <= k && k < len(result) && 1 <= p && p < len(params) ==> exists m int :: 0 <= m && m < len(params[p]) && params[p][m] == result[k]
+//@   invariant forall k int, j int :: 0 <= k && k < len(result) && 0 <= j && j < pos[k] ==> params[0][j] != params[0][pos[k]]
+//@   invariant forall j int :: 0 <= j && j < i ==> (0 <= back[j] && back[j] < len(result) && result[back[j]] == params[0][j]) || (1 <= miss[j] && miss[j] < len(params) && forall m int :: 0 <= m && m < len(params[miss[j]]) ==> params[miss[j]][m] != params[0][j])
+//@   invariant forall a int, b int :: 0 <= a && a < b && b < len(result) ==> pos[a] < pos[b]
+//@   ghost-at Contains#1: back[i] = w when $ret
+//@   ghost-at Contains#2: miss[i] = j when !$ret
+//@   ghost-at append#1: pos[len($ret)-1] = i
+//@   ghost-at append#1: back[i] = len($ret)-1
+//@ loop 2
+//@   invariant 1 <= j && j <= len(params)
+//@   invariant forall p int :: 1 <= p && p < j ==> exists m int :: 0 <= m && m < len(params[p]) && params[p][m] == item
+//@   invariant forall q int :: q != i ==> miss[q] == lold(miss[q])
+
+//@ func gogu.IntersectionBy$1
+//@   property C11
+//@   requires fn != nil && 0 <= j && j < len(params)
+//@   ensures result <==> exists m int :: 0 <= m && m < len(params[j]) && call(fn, params[j][m]) == call(fn, item)
+//@ loop 1
+//@   invariant forall m int :: 0 <= m && m < $i ==> call(fn, params[j][m]) != call(fn, item)
+
+//@ func gogu.IntersectionBy
+//@   property C11 C16
+//@   requires len(params) >= 1 && fn != nil
+//@   ghost pos map[int]int
+//@   ghost back map[int]int
+//@   ghost miss map[int]int
+//@   ghost w int
+//@   ensures fresh(result)
+//@   ensures forall k int :: 0 <= k && k < len(result) ==> 0 <= pos[k] && pos[k] < len(params[0]) && result[k] == params[0][pos[k]]
+//@   ensures forall k int, p int :: 0 <= k && k < len(result) && 1 <= p && p < len(params) ==> exists m int :: 0 <= m && m < len(params[p]) && call(fn, params[p][m]) == call(fn, result[k])
+//@   ensures forall j int :: 0 <= j && j < len(params[0]) ==> (0 <= back[j] && back[j] < len(result) && result[back[j]] == params[0][j]) || (1 <= miss[j] && miss[j] < len(params) && forall m int :: 0 <= m && m < len(params[miss[j]]) ==> call(fn, params[miss[j]][m]) != call(fn, params[0][j]))
+//@   ensures forall a int, b int :: 0 <= a && a < b && b < len(result) ==> pos[a] < pos[b]
+//@ loop 1
+//@   invariant fresh(result) && 0 <= i && i <= len(params[0])
+//@   invariant forall k int :: 0 <= k && k < len(result) ==> 0 <= pos[k] && pos[k] < i && result[k] == params[0][pos[k]]
+//@   invariant forall k int, p int :: 0 <= k && k < len(result) && 1 <= p && p < len(params) ==> exists m int :: 0 <= m && m < len(params[p]) && call(fn, params[p][m]) == call(fn, result[k])
+//@   invariant forall j int :: 0 <= j && j < i ==> (0 <= back[j] && back[j] < len(result) && result[back[j]] == params[0][j]) || (1 <= miss[j] && miss[j] < len(params) && forall m int :: 0 <= m && m < len(params[miss[j]]) ==> call(fn, params[miss[j]][m]) != call(fn, params[0][j]))
+//@   invariant forall a int, b int :: 0 <= a && a < b && b < len(result) ==> pos[a] < pos[b]
+//@   ghost-at Contains#1: back[i] = w when $ret
+//@   ghost-at IntersectionBy$1#1: miss[i] = j when !$ret
+//@   ghost-at append#1: pos[len($ret)-1] = i
+//@   ghost-at append#1: back[i] = len($ret)-1
+//@ loop 2
+//@   invariant 1 <= j && j <= len(params)
+//@   invariant forall p int :: 1 <= p && p < j ==> exists m int :: 0 <= m && m < len(params[p]) && call(fn, params[p][m]) == call(fn, item)
+//@   invariant forall q int :: q != i ==> miss[q] == lold(miss[q])
+
+//@ func gogu.Duplicate
+//@   property C11 C16
+//@   ghost first map[T]int
+//@   ghost second map[T]int
+//@   ghost rb map[T]int
+//@   ensures fresh(result)
+//@   ensures forall k int :: 0 <= k && k < len(result) ==> 0 <= first[result[k]] && first[result[k]] < second[result[k]] && second[result[k]] < len(slice) && slice[first[result[k]]] == result[k] && slice[second[result[k]]] == result[k]
+//@   ensures forall i int, j int :: 0 <= i && i < j && j < len(slice) && slice[i] == slice[j] ==> 0 <= rb[slice[i]] && rb[slice[i]] < len(result) && result[rb[slice[i]]] == slice[i]
+//@   ensures forall a int, b int :: 0 <= a && a < b && b < len(result) ==> result[a] != result[b]
+//@ loop 1
+//@   invariant 0 <= $i && $i <= len(slice) && fresh(keyCount) && keyCount != nil && fresh(result) && len(result) == 0
+//@   invariant forall j int :: 0 <= j && j < $i ==> slice[j] in keyCount
+//@   invariant forall x T :: x in keyCount ==> keyCount[x] >= 1 && 0 <= first[x] && first[x] < $i && slice[first[x]] == x
+//@   invariant forall x T :: x in keyCount && keyCount[x] > 1 ==> first[x] < second[x] && second[x] < $i && slice[second[x]] == x
+//@   invariant forall x T, j int :: x in keyCount && keyCount[x] == 1 && 0 <= j && j < $i && j != first[x] ==> slice[j] != x
+//@   ghost first[v] = $i when !ok
+//@   ghost second[v] = $i when ok
+//@ loop 2
+//@   invariant fresh(result)
+//@   invariant forall k int :: 0 <= k && k < len(result) ==> result[k] in $visited && result[k] in keyCount && keyCount[result[k]] > 1
+//@   invariant forall x T :: x in $visited && x in keyCount && keyCount[x] > 1 ==> 0 <= rb[x] && rb[x] < len(result) && result[rb[x]] == x
+//@   invariant forall a int, b int :: 0 <= a && a < b && b < len(result) ==> result[a] != result[b]
+//@   ghost rb[k] = len(result)-1 when v > 1
+
+//@ func gogu.DuplicateWithIndex
+//@   property C11 C16
+//@   ghost second map[T]int
+//@   ensures fresh(result) && result != nil
+//@   ensures forall x T :: x in result ==> 0 <= result[x] && result[x] < second[x] && second[x] < len(slice) && slice[result[x]] == x && slice[second[x]] == x
+//@   ensures forall x T, j int :: x in result && 0 <= j && j < result[x] ==> slice[j] != x
+//@   ensures forall i int, j int :: 0 <= i && i < j && j < len(slice) && slice[i] == slice[j] ==> slice[i] in result
+//@ loop 1
+//@   invariant 0 <= idx && idx <= len(slice) && fresh(kvMap) && kvMap != nil && fresh(result) && result != nil && kvMap != result && (idx > 0 ==> count >= 1)
+//@   invariant forall x T :: !(x in result)
+//@   invariant forall j int :: 0 <= j && j < idx ==> slice[j] in kvMap
+//@   invariant forall x T :: x in kvMap ==> len(kvMap[x]) == 2 && fresh(kvMap[x]) && sarr(kvMap[x]) != 0 && soff(kvMap[x]) == 0
+//@   invariant forall x T, y T :: x in kvMap && y in kvMap && x != y ==> sarr(kvMap[x]) != sarr(kvMap[y])
+//@   invariant forall x T :: x in kvMap ==> kvMap[x][1] >= 1 && 0 <= kvMap[x][0] && kvMap[x][0] < idx && slice[kvMap[x][0]] == x
+//@   invariant forall x T, j int :: x in kvMap && 0 <= j && j < kvMap[x][0] ==> slice[j] != x
+//@   invariant forall x T :: x in kvMap && kvMap[x][1] > 1 ==> kvMap[x][0] < second[x] && second[x] < idx && slice[second[x]] == x
+//@   invariant forall x T, j int :: x in kvMap && kvMap[x][1] == 1 && 0 <= j && j < idx && j != kvMap[x][0] ==> slice[j] != x
+//@   ghost second[v] = idx when ok
+//@ loop 2
+//@   invariant fresh(result) && result != nil && kvMap != result
+//@   invariant forall x T :: x in result ==> x in kvMap && kvMap[x][1] > 1 && result[x] == kvMap[x][0]
+//@   invariant forall x T :: x in $visited && x in kvMap && kvMap[x][1] > 1 ==> x in result
+
+//@ func gogu.baseFlatten
+//@   property C11 C12 C16
+//@   modifies elems(acc)
+//@   ensures result1 != nil ==> len(result0) == 0 && sarr(result0) == 0
+//@   ensures result1 == nil ==> len(result0) >= len(acc) && forall k int :: 0 <= k && k < len(acc) ==> result0[k] == old(acc[k])
+//@   ensures result1 == nil ==> fresh(result0) || (sarr(result0) == sarr(acc) && soff(result0) == soff(acc))
+//@   ensures forall a int :: a < soff(acc) + len(acc) ==> elems(acc)[a] == old(elems(acc)[a])
+//@ loop 1
+//@   invariant 0 <= $i && $i <= len(v)
+//@   invariant len(acc) >= len(param(acc)) && forall k int :: 0 <= k && k < len(param(acc)) ==> acc[k] == old(param(acc)[k])
+//@   invariant fresh(acc) || (sarr(acc) == sarr(param(acc)) && soff(acc) == soff(param(acc)))
+//@   invariant forall a int :: a < soff(param(acc)) + len(param(acc)) ==> elems(param(acc))[a] == old(elems(param(acc))[a])
+
+//@ func gogu.Union
+//@   property C11 C16
+//@   ghost ferr bool = false
+//@   ghost flat []T
+//@   ghost pos map[int]int
+//@   ghost back map[int]int
+//@   ghost-at baseFlatten#1: ferr = $ret1 != nil
+//@   ghost-at baseFlatten#1: flat = $ret0
+//@   ensures ferr ==> result1 != nil
+//@   ensures !ferr ==> result1 == nil && fresh(result0)
+//@   ensures !ferr ==> forall k int :: 0 <= k && k < len(result0) ==> 0 <= pos[k] && pos[k] < len(flat) && result0[k] == flat[pos[k]]
+//@   ensures !ferr ==> forall k int, j int :: 0 <= k && k < len(result0) && 0 <= j && j < pos[k] ==> flat[j] != flat[pos[k]]
+//@   ensures !ferr ==> forall j int :: 0 <= j && j < len(flat) ==> 0 <= back[j] && back[j] < len(result0) && result0[back[j]] == flat[j]
+//@   ensures !ferr ==> forall a int, b int :: 0 <= a && a < b && b < len(result0) ==> pos[a] < pos[b] && result0[a] != result0[b]
+
+//@ func gogu.Flatten
+//@   property C12 C16
+//@   ensures result1 != nil ==> len(result0) == 0
+//@   ensures result1 == nil ==> fresh(result0)
